@@ -218,6 +218,18 @@ def handle : Handler := fun fn a =>
         pure (st', acc.2 ++ [Json.mkObj [("pieces", piecesJ ps), ("mean", .arr (st'.mean.map optRatJ).toArray), ("var", .arr (st'.var.map optRatJ).toArray)]]))
         (st0, [])
       .ok (.arr outs.toArray)
+  | "resolve_flag" => do
+      let ob (k : String) : Except String (Option Bool) :=
+        match optFld a k with
+        | none => .ok none
+        | some v => do .ok (some (← asBool v))
+      let api ← asStr (← fld a "api")
+      let cl ← ob "call"
+      let attr ← ob "attr"
+      let r := if api = "linen" then mergeParam attr cl else resolveFlag cl attr
+      match r with
+      | .ok b => .ok (.bool b)
+      | .error e => .error e
   | "dropout_branch" => do
       let r : DropoutOut := dropoutBranch (← asNat (← fld a "rate_num")) (← asNat (← fld a "rate_den"))
         (← asBool (← fld a "deterministic")) (← asNats (← fld a "shape")) (← asInts (← fld a "broadcast_dims"))
